@@ -241,6 +241,19 @@ impl Ty {
         }
     }
 
+    /// Contains a range whose size is not a nonzero power of two: the pinned build padded such
+    /// ranges to a non-power-of-two unit (finding F14), so its streams for these types are not
+    /// format-1.1 streams and were readable only at lucky addresses.
+    pub fn has_f14_range(&self) -> bool {
+        match self {
+            Ty::Range(_, t) => { let s = self.layout().0; s == 0 || !s.is_power_of_two() || t.has_f14_range() }
+            Ty::Vec(t) | Ty::BoxSlice(t) | Ty::Array(t, _) | Ty::Tuple(t, _) | Ty::Option(t) | Ty::Bound(t) | Ty::Phantom(t) => t.has_f14_range(),
+            Ty::ControlFlow(a, b) => a.has_f14_range() || b.has_f14_range(),
+            Ty::Adt(a) => a.variants.iter().any(|v| v.fields.iter().any(|f| f.ty.has_f14_range())),
+            _ => false,
+        }
+    }
+
     /// Rust spelling, for reports.
     pub fn show(&self) -> String {
         match self {
